@@ -34,14 +34,21 @@ func checkTermination(r *Run, w *cliWorld, faultFired string, faultStatus int, c
 	// the injected fault's error must be the one surfaced, unless something else ended the client first
 	// (an error of another stream that occurred strictly before the faulty response reached the client)
 	faultFirst := true
-	// a response delivered at the very instant of Wait's value may have ended the client on its own account (a playlist
-	// at the live edge: next segment not listed yet; an init section after which the stream finds too few segments);
-	// two errors of one instant race inside the client
+	// The value is the client's *first* fatal error; Wait yields it only after every routine has ended, which takes
+	// simulated time when goroutines are being held at instrumented points. A response delivered no later than the
+	// faulty one may have ended the client on its own account before (a playlist at the live edge: next segment not
+	// listed yet; an init section after which the stream finds too few segments); at one instant the two race.
 	if w.waitSeen && w.waitErr != nil {
 		switch w.waitErr.Error() {
 		case "next segment not found or not ready yet", "playback is too late", "there aren't enough segments to fill the buffer":
+			faultAt := time.Duration(1 << 62)
 			for _, nr := range w.net.log {
-				if nr.delivered && nr.fate.fault == "" && nr.deliveredAt <= w.waitAt && w.waitAt-nr.deliveredAt <= sameInstant+12*r.MaxHold() {
+				if nr.fate != nil && nr.fate.fault != "" && nr.delivered && nr.deliveredAt < faultAt {
+					faultAt = nr.deliveredAt
+				}
+			}
+			for _, nr := range w.net.log {
+				if nr.delivered && nr.fate.fault == "" && nr.deliveredAt <= w.waitAt && nr.deliveredAt <= faultAt+sameInstant {
 					faultFirst = false
 				}
 			}
@@ -186,9 +193,29 @@ func scC12Fault(r *Run) {
 }
 
 // scC12Close: Close at scheduler event SweepPos, optionally repeated and racing a fault.
-func scC12Close(r *Run) {
+func scC12Close(r *Run) { runC12Close(r, false) }
+
+// scC12Handover: Close (or a fault) while the client's stages are handing work over to each other: the stream
+// processor is held 50-300 ms of simulated time before every hand-over to a track processor (longer than a
+// fragment plays, so that completions of the track processor pile up behind it), segments consist of several
+// fragments, and Close arrives on a time grid across the whole playback.
+func scC12Handover(r *Run) { runC12Close(r, true) }
+
+func runC12Close(r *Run, handover bool) {
 	T := r.T
-	o := c12Origin(r)
+	var o *stubOrigin
+	if handover {
+		g := &originGen{containers: []string{"fmp4", "fmp4", "ts"}, modes: []string{"vod", "vod", "event"}, minSegs: 3, maxSegs: 8,
+			renditions: true, byteRanges: false, segDurMs: []int{500, 1000, 2000}, multiFrag: true, minFrags: 3, noPDTChance: 3}
+		o = genStubOrigin(r, g)
+		for _, st := range o.streams {
+			if st.mode != "vod" {
+				st.endAfter = len(st.segs)
+			}
+		}
+	} else {
+		o = c12Origin(r)
+	}
 	lat := Pick(T, 0, 10, 100)
 	closeAt := r.SweepPos + 1
 	nClose := Pick(T, 1, 1, 2, 3)
@@ -207,6 +234,13 @@ func scC12Close(r *Run) {
 	}
 	w := newCliWorld(r, o, o.primaryURL(), fate)
 	w.onTracksDelay = time.Duration(Pick(T, 0, 0, 30, 300, 2000)) * time.Millisecond
+	if handover {
+		site := Pick(T, "client.processor.beforePush", "client.processor.beforePush", "client.processor.afterPull", "client.downloader.beforePush")
+		hold := time.Duration(Pick(T, 50, 100, 300)) * time.Millisecond
+		r.SetDelay(site, hold)
+		r.Log("client", "0s (harness) goroutines passing %s are held %v", site, hold)
+		w.onTracksDelay = 0
+	}
 	if faultKind != "stall" || faultPos < 0 {
 		w.net.tr.ignoreCancel = T.Chance(1, 3) // swarm: some transports deliver what is in flight even after cancellation
 	}
@@ -215,6 +249,9 @@ func scC12Close(r *Run) {
 	// half of the scenarios sweep the Close position over scheduler events, the other half over a time grid
 	// (events are sparse while samples are being paced; a grid of 5..500 ms reaches the moments in between)
 	grid := time.Duration(Pick(T, 0, 0, 0, 5, 23, 23, 100, 500)) * time.Millisecond
+	if handover {
+		grid = time.Duration(Pick(T, 23, 37, 61)) * time.Millisecond // 200 sweep positions: the first 4.6-12 s of playback
+	}
 	if grid > 0 {
 		at := time.Duration(r.SweepPos) * grid
 		closeAt = 1 << 30
@@ -280,8 +317,9 @@ func scC12Close(r *Run) {
 }
 
 func init() {
-	register(&PropDef{ID: "C12", Quick: 20000, Thorough: 400000, Profiles: []ProfileDef{
+	register(&PropDef{ID: "C12", Quick: 30000, Thorough: 600000, Profiles: []ProfileDef{
 		{Name: "fault-sweep", Share: 1, Sc: scC12Fault, Sweep: 200},
 		{Name: "close-sweep", Share: 1, Sc: scC12Close, Sweep: 200},
+		{Name: "handover", Share: 1, Sc: scC12Handover, Sweep: 200},
 	}})
 }
